@@ -107,7 +107,7 @@ func FloatFromString(str string) (Object, error) {
 	return Float(f), nil
 }
 
-var expectingFloat = ExceptionNewf(TypeError, "a float is required")
+var expectingFloat = ExceptionTemplatef(TypeError, "a float is required")
 
 // Returns the float value of obj if it is exactly a float
 func FloatCheckExact(obj Object) (Float, error) {
@@ -144,7 +144,7 @@ func FloatAsFloat64(obj Object) (float64, error) {
 // Arithmetic
 
 // Errors
-var floatDivisionByZero = ExceptionNewf(ZeroDivisionError, "float division by zero")
+var floatDivisionByZero = ExceptionTemplatef(ZeroDivisionError, "float division by zero")
 
 // Convert an Object to an Float
 //
